@@ -15,7 +15,9 @@ RULE = (
     "termination; on completion every subscribed observer, and every later subscriber, receives the last value (if any "
     "on_next was accepted, whatever its truthiness) then completion; on error only the error; DisposedException after "
     "dispose. Non-trivial: the subject terminated by an error or by a completion with a value while >=1 observer was "
-    "subscribed AND a subscriber arrived after termination. Distinct = distinct case JSON."
+    "subscribed AND a subscriber arrived after termination. "
+    "A third check (falsy_error, run last) repeats short histories in which on_error is given a valid exception object whose "
+    "truth value is False (it defines __len__ == 0). Distinct = distinct case JSON."
 )
 ASSUMPTIONS = [
     "as C20 (public subscribe, subscription-order delivery, unsubscribe inside subscribe() effective at its return, non-raising callbacks)",
@@ -49,7 +51,7 @@ def checks(tier):
     n = 40 if tier == "quick" else 120
     return [
         Check("enum", _run, cases=_enum, shards={"quick": 8, "thorough": 16}, exhaustive=True),
-        Check("gen", _run, strategy=histories("async", n), examples={"quick": 4000, "thorough": 16 * 20000}, shards={"quick": 4, "thorough": 16}),
+        Check("gen", _run, strategy=histories("async", n), examples={"quick": 3200, "thorough": 16 * 20000}, shards={"quick": 8, "thorough": 16}),
         # last on purpose: a failure here must not cut the two searches above short
         Check("falsy_error", _run, strategy=histories("async", 12, falsy_error=True), examples={"quick": 400, "thorough": 16 * 1000}, shards={"quick": 1, "thorough": 16}),
     ]
